@@ -163,7 +163,7 @@ theorem tsfnz_of_stationary (e ts phi' : ℝ) (he : |e * sin phi'| < 1)
 /-- the ellipsoidal Mercator forward inside the usable region, in closed form -/
 theorem fwdMerc_ell (c : MercC ℝ) (hs : c.sr.sphere = false) (lon lat : ℝ) (hlat : |lat| ≤ 1.5) :
     fwdMerc c lon lat = .ok (c.sr.x0 + c.sr.a * c.k0 * adjustLon (lon - c.sr.long0),
-      c.sr.y0 - c.sr.a * c.k0 * log (tsfnz c.sr.e lat (sin lat))) := by
+      c.sr.y0 - c.sr.a * c.k0 * log (tsfnz c.e lat (sin lat))) := by
   have hpi : (3.14 : ℝ) < π := pi_gt_d2
   obtain ⟨hl1, hl2⟩ := abs_le.mp hlat
   have h90a : ¬ (90 < lat * r2d) := by simp only [r2d]; norm_num; nlinarith
@@ -184,24 +184,24 @@ project) and `λ' = λ`, for `|λ|, |λ − λ₀| ≤ sPi`, `|φ|, |φ'| ≤ 1.
 theorem C08_merc_ell_inv_of_converged (c : MercC ℝ) (hs : c.sr.sphere = false) (ha : 0 < c.sr.a)
     (hk : 0 < c.k0) (lon lat x y lon' lat' : ℝ)
     (hlat : |lat| ≤ 1.5) (hlat' : |lat'| ≤ 1.5) (hlon : |lon| ≤ sPi) (hdl : |lon - c.sr.long0| ≤ sPi)
-    (he : |c.sr.e * sin lat| < 1) (he' : |c.sr.e * sin lat'| < 1)
+    (he : |c.e * sin lat| < 1) (he' : |c.e * sin lat'| < 1)
     (hf : fwdMerc c lon lat = .ok (x, y)) (hi : invMerc c x y = .ok (lon', lat'))
-    (hstat : phi2zStep c.sr.e (exp (-(y - c.sr.y0) / (c.sr.a * c.k0))) lat' = 0) :
+    (hstat : phi2zStep c.e (exp (-(y - c.sr.y0) / (c.sr.a * c.k0))) lat' = 0) :
     lon' = lon ∧ fwdMerc c lon' lat' = .ok (x, y) := by
   have hak : c.sr.a * c.k0 ≠ 0 := (mul_pos ha hk).ne'
   rw [fwdMerc_ell c hs lon lat hlat, adjustLon_id hdl] at hf
   simp only [Except.ok.injEq, Prod.mk.injEq] at hf
   obtain ⟨hx, hy⟩ := hf
-  have hts0 : 0 < tsfnz c.sr.e lat (sin lat) := by
+  have hts0 : 0 < tsfnz c.e lat (sin lat) := by
     obtain ⟨hl1, hl2⟩ := abs_le.mp hlat
     have hpi : (3.14 : ℝ) < π := pi_gt_d2
-    have hP := conPow_pos (c.sr.e * sin lat) (0.5 * c.sr.e) he
+    have hP := conPow_pos (c.e * sin lat) (0.5 * c.e) he
     simp only [tsfnz, halfPi_real, tan_real, pow_real, lit_one]
     exact div_pos (tan_pos_of_pos_of_lt_pi_div_two (by linarith) (by linarith)) hP
-  have hexp : exp (-(y - c.sr.y0) / (c.sr.a * c.k0)) = tsfnz c.sr.e lat (sin lat) := by
-    rw [← hy, show -(c.sr.y0 - c.sr.a * c.k0 * log (tsfnz c.sr.e lat (sin lat)) - c.sr.y0) / (c.sr.a * c.k0)
-      = log (tsfnz c.sr.e lat (sin lat)) by field_simp; ring, exp_log hts0]
-  have hts' := tsfnz_of_stationary c.sr.e _ lat' he' hstat
+  have hexp : exp (-(y - c.sr.y0) / (c.sr.a * c.k0)) = tsfnz c.e lat (sin lat) := by
+    rw [← hy, show -(c.sr.y0 - c.sr.a * c.k0 * log (tsfnz c.e lat (sin lat)) - c.sr.y0) / (c.sr.a * c.k0)
+      = log (tsfnz c.e lat (sin lat)) by field_simp; ring, exp_log hts0]
+  have hts' := tsfnz_of_stationary c.e _ lat' he' hstat
   simp only [invMerc, hs, Bool.false_eq_true, if_false, bind, Except.bind, exp_real] at hi
   split at hi
   · cases hi
